@@ -41,6 +41,14 @@ def run_one(prop, shared, tier, seed, only=None):
         mod.run(ctx)
         if tier == 'thorough' and hasattr(mod, 'run_thorough'):
             mod.run_thorough(ctx)
+        if tier == 'thorough' and not only and not os.environ.get('SGZ_NO_SELFTEST'):
+            from .core import load_known_findings
+            kk = {k['key'] for k in load_known_findings().get('known', []) if k.get('property') == prop}
+            if all(f.key in kk for f in ctx.findings):
+                from . import selftest
+                selftest.run(ctx)
+            else:
+                ctx.notes.append('self-test not run: the unedited tree already violates the property')
         if only:
             ctx.findings = [f for f in ctx.findings if f.rule == only or f.rule.startswith(only + '.')]
         return finish(ctx, mod.EXPLANATION, mod.ASSUMPTIONS, mod.NOT_DECIDED)
